@@ -1,5 +1,6 @@
-(* Proofs/Tiling2Facts.v — lemmas about Model/Tiling2.v (C17). *)
-From Coq Require Import List ZArith Bool Arith Lia ZifyBool.
+(* Proofs/Tiling2Facts.v — lemmas about Model/Tiling2.v (C17):
+   bfs_connected_sound, no_crossing_sound (exact, over Q), rhombus_exact, check_rhombus_tiling_sound. *)
+From Coq Require Import List ZArith Bool Arith Lia ZifyBool QArith Lqa Psatz.
 From Koala Require Import Model.Lattice Model.Tiling2.
 Import ListNotations.
 Open Scope Z_scope.
@@ -7,3 +8,507 @@ Open Scope Z_scope.
 (* Euler arithmetic used by the property: V - E + F = 1  <->  F = E - V + 1 *)
 Lemma euler_count : forall V E F : Z, V - E + F = 1 <-> F = E - V + 1.
 Proof. intros; lia. Qed.
+
+
+(* ---------- connectivity ---------- *)
+Definition adjacent (L : lattice) (u w : nat) : Prop := In (u, w) (edges L) \/ In (w, u) (edges L).
+Inductive reach (L : lattice) (s : nat) : nat -> Prop :=
+| reach_refl : reach L s s
+| reach_step : forall u w, reach L s u -> adjacent L u w -> reach L s w.
+
+Lemma nth_repeat_nil : forall (A : Type) n u, nth u (repeat (@nil A) n) [] = [].
+Proof. intros A. induction n as [|n IH]; intros [|u]; cbn; auto. Qed.
+
+Lemma nth_repeat_false : forall n u, nth u (repeat false n) false = false.
+Proof. induction n as [|n IH]; intros [|u]; cbn; auto. Qed.
+
+Lemma add_at_In : forall tab a b u w,
+  In w (nth u (add_at a b tab) []) -> (u = a /\ w = b) \/ In w (nth u tab []).
+Proof.
+  induction tab as [|row r IH]; intros a b u w H.
+  - destruct a; cbn in H; destruct u; cbn in H; contradiction.
+  - destruct a as [|a]; cbn [add_at] in H.
+    + destruct u as [|u]; cbn [nth] in *.
+      * destruct H as [H | H]; [ left; auto | right; exact H ].
+      * right; exact H.
+    + destruct u as [|u]; cbn [nth] in *.
+      * right; exact H.
+      * destruct (IH a b u w H) as [[-> ->] | H']; [ left; auto | right; exact H' ].
+Qed.
+
+Lemma adj_fold_sound : forall (P : nat -> nat -> Prop) (es : list (nat * nat)) tab,
+  (forall u w, In w (nth u tab []) -> P u w) ->
+  (forall e, In e es -> P (fst e) (snd e) /\ P (snd e) (fst e)) ->
+  forall u w,
+    In w (nth u (fold_left (fun tab e => add_at (fst e) (snd e) (add_at (snd e) (fst e) tab)) es tab) []) -> P u w.
+Proof.
+  intros P. induction es as [|e es IH]; intros tab Htab Hes u w H.
+  - cbn in H. now apply Htab.
+  - cbn [fold_left] in H. eapply IH; [ | | exact H ].
+    + intros u' w' H'. destruct (Hes e (or_introl eq_refl)) as [P1 P2].
+      apply add_at_In in H'. destruct H' as [[-> ->] | H']; [ exact P1 |].
+      apply add_at_In in H'. destruct H' as [[-> ->] | H']; [ exact P2 |].
+      now apply Htab.
+    + intros e' He'. apply Hes. now right.
+Qed.
+
+Lemma adj_lists_sound : forall L u w, In w (nth u (adj_lists L) []) -> adjacent L u w.
+Proof.
+  intros L u w H. unfold adj_lists in H.
+  eapply adj_fold_sound with (P := adjacent L); [ | | exact H ].
+  - intros u' w' H'. rewrite nth_repeat_nil in H'. destruct H'.
+  - intros [j k] He. cbn [fst snd]. split; [ left | right ]; exact He.
+Qed.
+
+Lemma set_nth_true : forall vis w x,
+  nth x (set_nth w true vis) false = true -> x = w \/ nth x vis false = true.
+Proof.
+  induction vis as [|b r IH]; intros w x H.
+  - destruct w; cbn in H; destruct x; cbn in H; discriminate.
+  - destruct w as [|w]; cbn [set_nth] in H.
+    + destruct x as [|x]; cbn [nth] in *; [ left; reflexivity | right; exact H ].
+    + destruct x as [|x]; cbn [nth] in *; [ right; exact H |].
+      destruct (IH w x H) as [-> | H']; [ left; reflexivity | right; exact H' ].
+Qed.
+
+Section Search.
+  Variable R : nat -> Prop.
+
+  Definition inv (st : list nat * list bool) : Prop :=
+    (forall x, nth x (snd st) false = true -> R x) /\ (forall x, In x (fst st) -> R x).
+
+  Lemma visit_inv : forall st w, inv st -> R w -> inv (visit st w).
+  Proof.
+    intros [fr vis] w [H1 H2] Hw. unfold visit. cbn [fst snd] in *.
+    destruct (nth w vis true); [ split; assumption |].
+    split; cbn [fst snd].
+    - intros x Hx. apply set_nth_true in Hx. destruct Hx as [-> | Hx]; auto.
+    - intros x [<- | Hx]; auto.
+  Qed.
+
+  Lemma fold_visit_inv : forall ws st, inv st -> (forall w, In w ws -> R w) -> inv (fold_left visit ws st).
+  Proof.
+    induction ws as [|w ws IH]; intros st Hst Hws; cbn [fold_left]; [ exact Hst |].
+    apply IH; [ apply visit_inv; [ exact Hst | apply Hws; now left ] | intros w' Hw'; apply Hws; now right ].
+  Qed.
+
+  Variable adj : list (list nat).
+  Hypothesis adj_closed : forall u w, R u -> In w (nth u adj []) -> R w.
+
+  Lemma bfs_inv : forall fuel frontier vis,
+    (forall x, nth x vis false = true -> R x) -> (forall u, In u frontier -> R u) ->
+    forall x, nth x (bfs fuel adj frontier vis) false = true -> R x.
+  Proof.
+    induction fuel as [|fuel IH]; intros frontier vis Hvis Hfr x Hx; cbn [bfs] in Hx; [ now apply Hvis |].
+    destruct frontier as [|u rest]; [ now apply Hvis |].
+    assert (Hu : R u) by (apply Hfr; now left).
+    assert (Hinv : inv (fold_left visit (nth u adj []) ([], vis))).
+    { apply fold_visit_inv; [ split; cbn [fst snd]; [ exact Hvis | intros y [] ] |].
+      intros w Hw. now apply adj_closed with (u := u). }
+    destruct Hinv as [I1 I2].
+    eapply IH; [ exact I1 | | exact Hx ].
+    intros y Hy. apply in_app_or in Hy. destruct Hy as [Hy | Hy]; [ apply Hfr; now right |].
+    apply I2. now apply in_rev.
+  Qed.
+End Search.
+
+Theorem bfs_connected_sound : forall L, connected_check L = true ->
+  forall v, (v < nV L)%nat -> reach L 0%nat v.
+Proof.
+  intros L H v Hv. unfold connected_check in H. apply andb_true_iff in H. destruct H as [_ H].
+  rewrite forallb_forall in H. specialize (H v). 
+  assert (Hin : In v (seq 0 (nV L))) by (apply in_seq; lia). specialize (H Hin).
+  unfold reached in H.
+  eapply bfs_inv with (R := reach L 0%nat) (adj := adj_lists L); [ | | | exact H ].
+  - intros u w Hu Hw. eapply reach_step; [ exact Hu | now apply adj_lists_sound ].
+  - intros x Hx. apply set_nth_true in Hx. destruct Hx as [-> | Hx]; [ constructor |].
+    rewrite nth_repeat_false in Hx. discriminate.
+  - intros u [<- | []]. constructor.
+Qed.
+
+(* ---------- segment geometry over Q ---------- *)
+Section QGeometry.
+Open Scope Q_scope.
+
+
+Lemma straddle_Q : forall P1 P2 Q1 Q2 R1 R2 S1 S2 t s : Q,
+  0 <= t -> t <= 1 -> 0 <= s -> s <= 1 ->
+  P1 + t * (Q1 - P1) == R1 + s * (S1 - R1) ->
+  P2 + t * (Q2 - P2) == R2 + s * (S2 - R2) ->
+  0 < ((Q1 - P1) * (R2 - P2) - (Q2 - P2) * (R1 - P1)) * ((Q1 - P1) * (S2 - P2) - (Q2 - P2) * (S1 - P1)) -> False.
+Proof.
+  intros P1 P2 Q1 Q2 R1 R2 S1 S2 t s Ht0 Ht1 Hs0 Hs1 E1 E2 H.
+  set (A := (Q1 - P1) * (R2 - P2) - (Q2 - P2) * (R1 - P1)) in *.
+  set (B := (Q1 - P1) * (S2 - P2) - (Q2 - P2) * (S1 - P1)) in *.
+  assert (HAB : A + s * (B - A) == 0).
+  { unfold A, B. 
+    assert (X1 : R1 + s * (S1 - R1) - P1 == t * (Q1 - P1)) by lra.
+    assert (X2 : R2 + s * (S2 - R2) - P2 == t * (Q2 - P2)) by lra.
+    transitivity ((Q1 - P1) * (R2 + s * (S2 - R2) - P2) - (Q2 - P2) * (R1 + s * (S1 - R1) - P1)); [ ring |].
+    rewrite X1, X2. ring. }
+  assert (H1 : 0 <= (1 - s) * (A * A)) by nra.
+  assert (H2 : 0 <= s * (A * B)) by nra.
+  assert (H3 : (1 - s) * (A * A) + s * (A * B) == 0).
+  { transitivity (A * (A + s * (B - A))); [ ring | rewrite HAB; ring ]. }
+  nra.
+Qed.
+
+(* the x-ranges (or y-ranges) of the two segments are disjoint *)
+Lemma bbox_Q : forall P Q R S t s : Q,
+  0 <= t -> t <= 1 -> 0 <= s -> s <= 1 ->
+  P + t * (Q - P) == R + s * (S - R) ->
+  P < R -> P < S -> Q < R -> Q < S -> False.
+Proof.
+  intros P Q R S t s Ht0 Ht1 Hs0 Hs1 E H1 H2 H3 H4.
+  assert (L : forall U, P < U -> Q < U -> P + t * (Q - P) < U).
+  { intros U HP HQ.
+    assert (0 <= (1 - t) * (U - P)) by nra. assert (0 <= t * (U - Q)) by nra.
+    destruct (Qlt_le_dec t (1 # 2)) as [Hh | Hh].
+    - assert ((1 # 2) * (U - P) <= (1 - t) * (U - P)) by nra. nra.
+    - assert ((1 # 2) * (U - Q) <= t * (U - Q)) by nra. nra. }
+  pose proof (L R H1 H3) as LR. pose proof (L S H2 H4) as LS.
+  set (X := P + t * (Q - P)) in *.
+  assert (0 <= (1 - s) * (R - X)) by nra. assert (0 <= s * (S - X)) by nra.
+  destruct (Qlt_le_dec s (1 # 2)) as [Hh | Hh].
+  - assert ((1 # 2) * (R - X) <= (1 - s) * (R - X)) by nra. nra.
+  - assert ((1 # 2) * (S - X) <= s * (S - X)) by nra. nra.
+Qed.
+
+(* two segments leaving a common end C, towards A and B: a common point is C itself *)
+Lemma fan_Q : forall a1 a2 b1 b2 t s : Q,
+  0 <= t -> t <= 1 -> 0 <= s -> s <= 1 ->
+  t * a1 == s * b1 -> t * a2 == s * b2 ->
+  (~ a1 * b2 - a2 * b1 == 0) \/ a1 * b1 + a2 * b2 <= 0 ->
+  t * a1 == 0 /\ t * a2 == 0.
+Proof.
+  intros a1 a2 b1 b2 t s Ht0 Ht1 Hs0 Hs1 E1 E2 H.
+  assert (Hc : t * (a1 * b2 - a2 * b1) == 0).
+  { transitivity ((t * a1) * b2 - (t * a2) * b1); [ ring | rewrite E1, E2; ring ]. }
+  destruct H as [H | H].
+  - assert (Ht : t == 0).
+    { destruct (Qeq_dec t 0) as [Hz | Hz]; [ exact Hz |].
+      exfalso. apply H. 
+      assert (Hm : t * (a1 * b2 - a2 * b1) == t * 0) by (rewrite Hc; ring).
+      apply Qmult_inj_l in Hm; assumption. }
+    rewrite Ht. split; ring.
+  - assert (Hd : t * (a1 * a1 + a2 * a2) == s * (a1 * b1 + a2 * b2)).
+    { transitivity ((t * a1) * a1 + (t * a2) * a2); [ ring | rewrite E1, E2; ring ]. }
+    assert (H0 : t * (a1 * a1) + t * (a2 * a2) <= 0) by nra.
+    assert (K1 : 0 <= t * (a1 * a1)) by nra.
+    assert (K2 : 0 <= t * (a2 * a2)) by nra.
+    assert (Z1 : t * (a1 * a1) == 0) by lra.
+    assert (Z2 : t * (a2 * a2) == 0) by lra.
+    assert (S1 : (t * a1) * (t * a1) == 0) by (transitivity (t * (t * (a1 * a1))); [ ring | rewrite Z1; ring ]).
+    assert (S2 : (t * a2) * (t * a2) == 0) by (transitivity (t * (t * (a2 * a2))); [ ring | rewrite Z2; ring ]).
+    split; nra.
+Qed.
+
+End QGeometry.
+
+
+Definition iq (z : Z) : Q := inject_Z z.
+
+(* the point (x,y) of the rational plane lies on the closed segment pq *)
+Definition on_seg (p q : vec) (x y : Q) : Prop :=
+  exists t : Q, (0 <= t /\ t <= 1 /\
+    x == iq (fst p) + t * (iq (fst q) - iq (fst p)) /\
+    y == iq (snd p) + t * (iq (snd q) - iq (snd p)))%Q.
+
+Lemma on_seg_sym : forall p q x y, on_seg p q x y -> on_seg q p x y.
+Proof.
+  intros p q x y [t [H0 [H1 [Hx Hy]]]]. exists (1 - t)%Q.
+  split; [ lra |]. split; [ lra |]. split; [ rewrite Hx; ring | rewrite Hy; ring ].
+Qed.
+
+Lemma iq_lt : forall a b : Z, a < b -> (iq a < iq b)%Q.
+Proof. intros a b H. unfold iq. now rewrite <- Zlt_Qlt. Qed.
+Lemma iq_le : forall a b : Z, a <= b -> (iq a <= iq b)%Q.
+Proof. intros a b H. unfold iq. now rewrite <- Zle_Qle. Qed.
+
+Lemma iq_sub : forall a b, (iq (a - b) == iq a - iq b)%Q.
+Proof. intros. unfold iq, Z.sub. rewrite inject_Z_plus, inject_Z_opp. ring. Qed.
+Lemma iq_mul : forall a b, (iq (a * b) == iq a * iq b)%Q.
+Proof. intros. unfold iq. rewrite inject_Z_mult. reflexivity. Qed.
+Lemma iq_add : forall a b, (iq (a + b) == iq a + iq b)%Q.
+Proof. intros. unfold iq. rewrite inject_Z_plus. reflexivity. Qed.
+
+Lemma iq_cross : forall c a b : vec,
+  (iq (vcross (vsub a c) (vsub b c)) ==
+   (iq (fst a) - iq (fst c)) * (iq (snd b) - iq (snd c)) - (iq (snd a) - iq (snd c)) * (iq (fst b) - iq (fst c)))%Q.
+Proof.
+  intros c a b. unfold vcross, vsub. cbn [fst snd].
+  rewrite iq_sub, !iq_mul, !iq_sub. ring.
+Qed.
+Lemma iq_dot : forall c a b : vec,
+  (iq (vdot (vsub a c) (vsub b c)) ==
+   (iq (fst a) - iq (fst c)) * (iq (fst b) - iq (fst c)) + (iq (snd a) - iq (snd c)) * (iq (snd b) - iq (snd c)))%Q.
+Proof.
+  intros c a b. unfold vdot, vsub. cbn [fst snd].
+  rewrite iq_add, !iq_mul, !iq_sub. ring.
+Qed.
+
+Lemma straddle_half : forall p q r s x y,
+  0 < orient p q r * orient p q s -> on_seg p q x y -> on_seg r s x y -> False.
+Proof.
+  intros p q r s x y H [t [T0 [T1 [Tx Ty]]]] [u [U0 [U1 [Ux Uy]]]].
+  apply iq_lt in H. rewrite iq_mul in H. unfold orient in H. rewrite !iq_cross in H.
+  change (iq 0) with 0%Q in H.
+  eapply straddle_Q with (t := t) (s := u)
+    (P1 := iq (fst p)) (P2 := iq (snd p)) (Q1 := iq (fst q)) (Q2 := iq (snd q))
+    (R1 := iq (fst r)) (R2 := iq (snd r)) (S1 := iq (fst s)) (S2 := iq (snd s)); try assumption.
+  - rewrite <- Tx, <- Ux. reflexivity.
+  - rewrite <- Ty, <- Uy. reflexivity.
+Qed.
+
+Lemma straddle_free_sound : forall p q r s x y,
+  straddle_free p q r s = true -> on_seg p q x y -> on_seg r s x y -> False.
+Proof.
+  intros p q r s x y H Hpq Hrs. unfold straddle_free in H. apply orb_true_iff in H.
+  destruct H as [H | H].
+  - eapply straddle_half with (p := p) (q := q) (r := r) (s := s); eauto. lia.
+  - eapply straddle_half with (p := r) (q := s) (r := p) (s := q); eauto. lia.
+Qed.
+
+Lemma fan_ok_sound : forall c a b x y,
+  fan_ok c a b = true -> on_seg c a x y -> on_seg c b x y ->
+  (x == iq (fst c) /\ y == iq (snd c))%Q.
+Proof.
+  intros c a b x y H [t [T0 [T1 [Tx Ty]]]] [u [U0 [U1 [Ux Uy]]]].
+  unfold fan_ok in H. cbv zeta in H.
+  assert (Hq : (~ (iq (fst a) - iq (fst c)) * (iq (snd b) - iq (snd c)) - (iq (snd a) - iq (snd c)) * (iq (fst b) - iq (fst c)) == 0
+               \/ (iq (fst a) - iq (fst c)) * (iq (fst b) - iq (fst c)) + (iq (snd a) - iq (snd c)) * (iq (snd b) - iq (snd c)) <= 0)%Q).
+  { apply orb_true_iff in H. destruct H as [H | H].
+    - left. rewrite <- iq_cross. intro E. unfold iq in E. change 0%Q with (inject_Z 0) in E.
+      unfold Qeq in E; cbn [Qnum Qden inject_Z] in E. lia.
+    - right. rewrite <- iq_dot. change 0%Q with (iq 0). apply iq_le. lia. }
+  destruct (fan_Q (iq (fst a) - iq (fst c)) (iq (snd a) - iq (snd c)) (iq (fst b) - iq (fst c)) (iq (snd b) - iq (snd c)) t u)
+    as [Z1 Z2]; try assumption.
+  - lra.
+  - lra.
+  - split; lra.
+Qed.
+
+Lemma bbox_sound_x : forall p q r s x y,
+  Z.max (fst p) (fst q) < Z.min (fst r) (fst s) -> on_seg p q x y -> on_seg r s x y -> False.
+Proof.
+  intros p q r s x y H [t [T0 [T1 [Tx Ty]]]] [u [U0 [U1 [Ux Uy]]]].
+  eapply bbox_Q with (t := t) (s := u) (P := iq (fst p)) (Q := iq (fst q)) (R := iq (fst r)) (S := iq (fst s));
+    try assumption; try (apply iq_lt; lia).
+  rewrite <- Tx, <- Ux. reflexivity.
+Qed.
+Lemma bbox_sound_y : forall p q r s x y,
+  Z.max (snd p) (snd q) < Z.min (snd r) (snd s) -> on_seg p q x y -> on_seg r s x y -> False.
+Proof.
+  intros p q r s x y H [t [T0 [T1 [Tx Ty]]]] [u [U0 [U1 [Ux Uy]]]].
+  eapply bbox_Q with (t := t) (s := u) (P := iq (snd p)) (Q := iq (snd q)) (R := iq (snd r)) (S := iq (snd s));
+    try assumption; try (apply iq_lt; lia).
+  rewrite <- Ty, <- Uy. reflexivity.
+Qed.
+
+(* the conclusion for one pair of edges: a common point is the position of a common end vertex *)
+Definition meet_only_at_common_vertex (L : lattice) (e f : nat * nat) : Prop :=
+  forall x y : Q,
+    on_seg (pos_at L (fst e)) (pos_at L (snd e)) x y ->
+    on_seg (pos_at L (fst f)) (pos_at L (snd f)) x y ->
+    exists v : nat, (v = fst e \/ v = snd e) /\ (v = fst f \/ v = snd f) /\
+      (x == iq (fst (pos_at L v)) /\ y == iq (snd (pos_at L v)))%Q.
+
+Lemma pair_ok_sound : forall L e f, pair_ok (mk_seg L e) (mk_seg L f) = true -> meet_only_at_common_vertex L e f.
+Proof.
+  intros L [j k] [l m] H x y He Hf. cbn [fst snd] in *.
+  unfold pair_ok in H. unfold mk_seg in H. cbn [sg_j sg_k sg_p sg_q sg_xlo sg_xhi sg_ylo sg_yhi fst snd] in H.
+  apply orb_true_iff in H. destruct H as [H | H].
+  { exfalso. unfold bbox_disjoint in H. cbn [sg_xlo sg_xhi sg_ylo sg_yhi] in H.
+    repeat (apply orb_true_iff in H; destruct H as [H | H]).
+    - eapply bbox_sound_x with (p := pos_at L j) (q := pos_at L k) (r := pos_at L l) (s := pos_at L m); eauto. lia.
+    - eapply bbox_sound_x with (p := pos_at L l) (q := pos_at L m) (r := pos_at L j) (s := pos_at L k); eauto. lia.
+    - eapply bbox_sound_y with (p := pos_at L j) (q := pos_at L k) (r := pos_at L l) (s := pos_at L m); eauto. lia.
+    - eapply bbox_sound_y with (p := pos_at L l) (q := pos_at L m) (r := pos_at L j) (s := pos_at L k); eauto. lia. }
+  destruct ((j =? k)%nat || (l =? m)%nat); [ discriminate |].
+  destruct (((j =? l)%nat && (k =? m)%nat) || ((j =? m)%nat && (k =? l)%nat)); [ discriminate |].
+  destruct (j =? l)%nat eqn:Ejl.
+  { apply Nat.eqb_eq in Ejl. subst l. exists j. split; [ now left |]. split; [ now left |].
+    eapply fan_ok_sound; eauto. }
+  destruct (j =? m)%nat eqn:Ejm.
+  { apply Nat.eqb_eq in Ejm. subst m. exists j. split; [ now left |]. split; [ now right |].
+    eapply fan_ok_sound; eauto. now apply on_seg_sym. }
+  destruct (k =? l)%nat eqn:Ekl.
+  { apply Nat.eqb_eq in Ekl. subst l. exists k. split; [ now right |]. split; [ now left |].
+    eapply fan_ok_sound; eauto. now apply on_seg_sym. }
+  destruct (k =? m)%nat eqn:Ekm.
+  { apply Nat.eqb_eq in Ekm. subst m. exists k. split; [ now right |]. split; [ now right |].
+    eapply fan_ok_sound; eauto; now apply on_seg_sym. }
+  exfalso. eapply straddle_free_sound; eauto.
+Qed.
+
+Lemma pairs_ok_nth : forall (A : Type) (chk : A -> A -> bool) (d : A) (l : list A),
+  pairs_ok chk l = true -> forall i j, (i < j)%nat -> (j < length l)%nat -> chk (nth i l d) (nth j l d) = true.
+Proof.
+  intros A chk d. induction l as [|x r IH]; intros H i j Hij Hj; [ cbn in Hj; lia |].
+  cbn [pairs_ok] in H. apply andb_true_iff in H. destruct H as [H1 H2].
+  destruct j as [|j]; [ lia |]. cbn [length] in Hj.
+  destruct i as [|i]; cbn [nth].
+  - rewrite forallb_forall in H1. apply H1. apply nth_In. lia.
+  - apply IH; auto; lia.
+Qed.
+
+Theorem no_crossing_sound : forall L, no_crossing_check L = true ->
+  forall e f, (e < f)%nat -> (f < nE L)%nat -> meet_only_at_common_vertex L (edge_at L e) (edge_at L f).
+Proof.
+  intros L H e f Hef Hf. unfold no_crossing_check, segs in H.
+  pose proof (pairs_ok_nth seg pair_ok (mk_seg L (0, 0)%nat) (map (mk_seg L) (edges L)) H e f Hef) as Hp.
+  rewrite map_length in Hp. specialize (Hp Hf). rewrite !map_nth in Hp.
+  now apply pair_ok_sound.
+Qed.
+
+
+Lemma sq_pos : forall z : Z, z <> 0 -> 0 < z * z.
+Proof. intros; nia. Qed.
+Lemma sq_nonneg : forall z : Z, 0 <= z * z.
+Proof. intros; nia. Qed.
+
+(* a closed 4-gon with four equal sides whose diagonals are non-degenerate is a parallelogram (rhombus) *)
+Theorem rhombus_exact : forall P0 P1 P2 P3 : vec,
+  norm2 (vsub P1 P0) = norm2 (vsub P2 P1) ->
+  norm2 (vsub P2 P1) = norm2 (vsub P3 P2) ->
+  norm2 (vsub P3 P2) = norm2 (vsub P0 P3) ->
+  P0 <> P2 -> P1 <> P3 ->
+  vsub P1 P0 = vsub P2 P3 /\ vsub P2 P1 = vsub P3 P0.
+Proof.
+  intros [x0 y0] [x1 y1] [x2 y2] [x3 y3] H1 H2 H3 D02 D13.
+  unfold norm2, vdot, vsub in *. cbn [fst snd] in *.
+  set (a1 := x1 - x0) in *. set (a2 := y1 - y0) in *.
+  set (b1 := x2 - x1) in *. set (b2 := y2 - y1) in *.
+  set (c1 := x3 - x2) in *. set (c2 := y3 - y2) in *.
+  assert (Hd1 : x0 - x3 = - (a1 + b1 + c1)) by (unfold a1, b1, c1; ring).
+  assert (Hd2 : y0 - y3 = - (a2 + b2 + c2)) by (unfold a2, b2, c2; ring).
+  rewrite Hd1, Hd2 in H3.
+  (* u = a+b, v = b+c, w = a+c are pairwise orthogonal *)
+  set (u1 := a1 + b1) in *. set (u2 := a2 + b2) in *.
+  set (v1 := b1 + c1) in *. set (v2 := b2 + c2) in *.
+  set (w1 := a1 + c1) in *. set (w2 := a2 + c2) in *.
+  assert (Huw : u1 * w1 + u2 * w2 = 0) by (unfold u1, u2, w1, w2; lia).
+  assert (Hvw : v1 * w1 + v2 * w2 = 0) by (unfold v1, v2, w1, w2; lia).
+  assert (Huv : u1 * v1 + u2 * v2 = 0) by (unfold u1, u2, v1, v2; lia).
+  assert (Hu : u1 <> 0 \/ u2 <> 0).
+  { destruct (Z.eq_dec u1 0) as [E1|]; [| now left ]. destruct (Z.eq_dec u2 0) as [E2|]; [| now right ].
+    exfalso. apply D02. clear H1 H2 H3 Huw Hvw Huv. f_equal; unfold u1, u2, a1, a2, b1, b2 in *; lia. }
+  assert (Hv : v1 <> 0 \/ v2 <> 0).
+  { destruct (Z.eq_dec v1 0) as [E1|]; [| now left ]. destruct (Z.eq_dec v2 0) as [E2|]; [| now right ].
+    exfalso. apply D13. clear H1 H2 H3 Huw Hvw Huv Hu. f_equal; unfold v1, v2, b1, b2, c1, c2 in *; lia. }
+  set (k := u1 * v2 - u2 * v1).
+  assert (Hk2 : k * k = (u1 * u1 + u2 * u2) * (v1 * v1 + v2 * v2) - (u1 * v1 + u2 * v2) * (u1 * v1 + u2 * v2)) by (unfold k; ring).
+  assert (Hk : k <> 0).
+  { intro E. rewrite E, Huv in Hk2.
+    pose proof sq_pos as SQ. pose proof sq_nonneg as SQ0. clear H1 H2 H3 Huw Hvw D02 D13.
+    assert (HU : 0 < u1 * u1 + u2 * u2).
+    { destruct Hu as [Hu | Hu]; [ pose proof (SQ u1 Hu); pose proof (SQ0 u2) | pose proof (SQ u2 Hu); pose proof (SQ0 u1) ]; lia. }
+    assert (HV : 0 < v1 * v1 + v2 * v2).
+    { destruct Hv as [Hv | Hv]; [ pose proof (SQ v1 Hv); pose proof (SQ0 v2) | pose proof (SQ v2 Hv); pose proof (SQ0 v1) ]; lia. }
+    assert (0 < (u1 * u1 + u2 * u2) * (v1 * v1 + v2 * v2)) by (apply Z.mul_pos_pos; assumption).
+    clear SQ SQ0 Hu Hv HU HV. lia. }
+  assert (Hw1 : w1 * k = 0).
+  { replace (w1 * k) with ((u1 * w1 + u2 * w2) * v2 - (v1 * w1 + v2 * w2) * u2) by (unfold k; ring). rewrite Huw, Hvw. ring. }
+  assert (Hw2 : w2 * k = 0).
+  { replace (w2 * k) with ((v1 * w1 + v2 * w2) * u1 - (u1 * w1 + u2 * w2) * v1) by (unfold k; ring). rewrite Huw, Hvw. ring. }
+  assert (W1 : w1 = 0) by (apply Z.mul_eq_0 in Hw1; destruct Hw1; [ assumption | contradiction ]).
+  assert (W2 : w2 = 0) by (apply Z.mul_eq_0 in Hw2; destruct Hw2; [ assumption | contradiction ]).
+  clear H1 H2 H3 Huw Hvw Huv Hu Hv Hk2 Hk Hw1 Hw2 Hd1 Hd2. clear k.
+  split; f_equal; unfold w1, w2, a1, a2, b1, b2, c1, c2 in *; lia.
+Qed.
+
+
+Lemma veqb_eq : forall p q : vec, veqb p q = true <-> p = q.
+Proof. intros [a b] [c d]. unfold veqb; cbn [fst snd]. split; intro H; [ f_equal; lia | inversion H; lia ]. Qed.
+
+Lemma all_distinct_NoDup : forall l, all_distinct l = true -> NoDup l.
+Proof.
+  induction l as [|p r IH]; intro H; [ constructor |].
+  cbn [all_distinct] in H. apply andb_true_iff in H. destruct H as [H1 H2].
+  constructor; [| now apply IH ].
+  intro Hin. apply negb_true_iff in H1.
+  assert (existsb (veqb p) r = true) by (apply existsb_exists; exists p; split; [ auto | now apply veqb_eq ]). congruence.
+Qed.
+
+(* a 4-sided plaquette whose parallelogram defect |P0 + P2 - P1 - P3| is at most (tn/td) * l0^(1/2) *)
+Definition face_P (tn td l0 : Z) (L : lattice) (p : plaquette) : Prop :=
+  exists a b c d : nat, p_verts p = [a; b; c; d] /\
+    norm2 (vsub (vadd (pos_at L a) (pos_at L c)) (vadd (pos_at L b) (pos_at L d))) * (td * td) <= tn * tn * l0.
+
+Lemma face_ok_sound : forall tn td l0 L p, face_ok tn td l0 L p = true -> face_P tn td l0 L p.
+Proof.
+  intros tn td l0 L p H. unfold face_ok in H. unfold face_P.
+  destruct (p_verts p) as [|a [|b [|c [|d [|x r]]]]]; try discriminate.
+  exists a, b, c, d. split; [ reflexivity | now apply Z.leb_le ].
+Qed.
+
+Definition parallel_P (tn td : Z) (v d : vec) : Prop :=
+  vcross v d * vcross v d * (td * td) <= tn * tn * (norm2 v * norm2 d).
+
+Theorem check_rhombus_tiling_sound : forall tn td use_dirs dirs L,
+  check_rhombus_tiling tn td use_dirs dirs L = true ->
+  wf_lattice L = true /\ 0 <= tn /\ 0 < td /\
+  (* open boundary, no self-loops, no two vertices coincide, no dangling edges, inside the unit square *)
+  (forall c, In c (crossing L) -> c = vzero) /\
+  (forall e, In e (edges L) -> fst e <> snd e) /\
+  NoDup (pos L) /\
+  (forall v, (v < nV L)%nat -> (2 <= count_ends L v)%nat) /\
+  (forall p, In p (pos L) -> 0 <= fst p <= scale L /\ 0 <= snd p <= scale L) /\
+  (* connected *)
+  (forall v, (v < nV L)%nat -> reach L 0%nat v) /\
+  (* no two edges cross *)
+  (forall e f, (e < f)%nat -> (f < nE L)%nat -> meet_only_at_common_vertex L (edge_at L e) (edge_at L f)) /\
+  (* all edges have the same length up to tn/td; every plaquette is a 4-gon, a parallelogram up to tn/td; V-E+F=1 *)
+  (exists e0 rest, edges L = e0 :: rest /\ 0 < len2 L e0 /\
+     (forall e, In e (edges L) -> Z.abs (len2 L e - len2 L e0) * td <= tn * len2 L e0) /\
+     exists ps, find_all_plaquettes L = Some ps /\
+       (forall p, In p ps -> face_P tn td (len2 L e0) L p) /\
+       Z.of_nat (nV L) - Z.of_nat (nE L) + Z.of_nat (length ps) = 1) /\
+  (* without angle disorder: every edge is parallel (|sin| <= tn/td) to one of the given star directions *)
+  (use_dirs = true -> forall e, In e (edges L) ->
+     exists d, In d dirs /\ parallel_P tn td (vsub (pos_at L (snd e)) (pos_at L (fst e))) d).
+Proof.
+  intros tn td use_dirs dirs L H. unfold check_rhombus_tiling in H.
+  apply andb_true_iff in H; destruct H as [H Hfaces].
+  apply andb_true_iff in H; destruct H as [H Hdirs].
+  apply andb_true_iff in H; destruct H as [H Hlen].
+  apply andb_true_iff in H; destruct H as [H Hnc].
+  apply andb_true_iff in H; destruct H as [H Hconn].
+  apply andb_true_iff in H; destruct H as [H Hsq].
+  apply andb_true_iff in H; destruct H as [H Hdeg].
+  apply andb_true_iff in H; destruct H as [H Hdist].
+  apply andb_true_iff in H; destruct H as [H Hloops].
+  apply andb_true_iff in H; destruct H as [H Hzero].
+  apply andb_true_iff in H; destruct H as [H Htd].
+  apply andb_true_iff in H; destruct H as [Hwf Htn].
+  split; [ exact Hwf |]. split; [ now apply Z.leb_le |]. split; [ now apply Z.ltb_lt |].
+  split.
+  { intros c Hc. unfold zero_crossing in Hzero. rewrite forallb_forall in Hzero. now apply veqb_eq, Hzero. }
+  split.
+  { intros e He. unfold no_self_loops in Hloops. rewrite forallb_forall in Hloops. specialize (Hloops e He). clear - Hloops. lia. }
+  split; [ now apply all_distinct_NoDup |].
+  split.
+  { intros v Hv. unfold degrees_ok in Hdeg. rewrite forallb_forall in Hdeg.
+    assert (Hin : In v (seq 0 (nV L))) by (apply in_seq; lia). specialize (Hdeg v Hin). clear - Hdeg. lia. }
+  split.
+  { intros p Hp. unfold in_unit_square in Hsq. rewrite forallb_forall in Hsq. specialize (Hsq p Hp). clear - Hsq. lia. }
+  split; [ now apply bfs_connected_sound |].
+  split; [ now apply no_crossing_sound |].
+  split.
+  { unfold lengths_ok in Hlen. unfold faces_ok in Hfaces.
+    destruct (edges L) as [|e0 rest] eqn:Ee; [ discriminate |].
+    exists e0, rest. split; [ reflexivity |].
+    apply andb_true_iff in Hlen. destruct Hlen as [Hl0 Hl].
+    split; [ now apply Z.ltb_lt |].
+    split.
+    { intros e He. rewrite forallb_forall in Hl. specialize (Hl e He). clear - Hl. lia. }
+    destruct (find_all_plaquettes L) as [ps|]; [| discriminate ].
+    exists ps. split; [ reflexivity |].
+    apply andb_true_iff in Hfaces. destruct Hfaces as [Hf He].
+    split; [| now apply Z.eqb_eq ].
+    intros p Hp. rewrite forallb_forall in Hf. now apply face_ok_sound, Hf. }
+  intros Hu e He. subst use_dirs. unfold directions_ok in Hdirs.
+  rewrite forallb_forall in Hdirs. specialize (Hdirs e He). cbv zeta in Hdirs.
+  apply existsb_exists in Hdirs. destruct Hdirs as [d [Hd Hp]].
+  exists d. split; [ exact Hd |]. unfold parallel_to in Hp. unfold parallel_P. clear - Hp. lia.
+Qed.
